@@ -99,7 +99,7 @@ CHECKS = {
                     quick=dict(shards=6, checks=4, timeout=300),
                     thorough=dict(shards=16, checks=24, timeout=1200))],
         rule='time-up part (c07t): CT / cash tables with a duration of 1 s; the hand settled after the deadline must still go settled -> standby with every per-hand field reset, and nothing opens by itself afterwards; cases = histories of 2-15 hands with membership changes plus control operations at drawn moments: CloseTable inside the settled callback (continue delay), Close/Release after the gate was armed, repeated SetUpTableGame while the gate is pending or a hand runs; oracle: life-cycle automaton over every published status, game count +1 and fresh game id per opened hand, no open while unsettled, per-hand fields reset at every engine fence, no open after close/release; interval part (c07i): the same histories (1-3 hands) on tables with a real 1 s continue delay; CloseTable / ReleaseTable / UpdateBlind(-1) / an arrival lands at a drawn offset 0-1.4 s after the settlement (both sides of the delayed continue step); whichever came first no hand may open afterwards (if the gate was armed it is completed and watched), and when the operation returned < 0.9 s after the settlement was published (so certainly before the 1 s step) the next hand must not even be set up, and a break must pause; retry part (c07r): the gate fires while blinds are unset (3 ways), so the first open attempt fails and the engine sleeps 3 s before retrying; a drawn script of 1-3 UpdateBlind calls (valid level / break / unset again) lands inside that window; final break => no hand may open (game count 0, no hand state), final valid => hand 1 opens and is created with exactly that level; cases whose script took more than 2.5 s are dropped, not judged; non-trivial = >=3 consecutive hands with a membership change or any control operation; distinct = distinct abstract traces',
-        mandatory=dict(quick=['table_time_up', 'setup_and_signals_in_settled_cb', 'settled_cb_held_open', 'close_in_settled_cb', 'closed_after_gate_armed', 'released_after_gate_armed', 'double_setup', 'setup_while_hand_runs', 'three_hands_with_change', 'retry_final_break', 'retry_final_valid', 'delay_close', 'delay_release', 'delay_break', 'delay_break_close', 'close_in_settled_cb_on_a_break']),
+        mandatory=dict(quick=['extension_during_settlement', 'table_time_up', 'setup_and_signals_in_settled_cb', 'settled_cb_held_open', 'close_in_settled_cb', 'closed_after_gate_armed', 'released_after_gate_armed', 'double_setup', 'setup_while_hand_runs', 'three_hands_with_change', 'retry_final_break', 'retry_final_valid', 'delay_close', 'delay_release', 'delay_break', 'delay_break_close', 'close_in_settled_cb_on_a_break']),
         assumptions=ASSUME_COMMON,
     ),
     "C08": dict(
